@@ -18,3 +18,4 @@ SP="$("$VENV/bin/python" -c 'import sysconfig; print(sysconfig.get_path("purelib
 echo "import site; site.addsitedir('/venv/lib/python3.12/site-packages')" > "$SP/zz_venv_overlay.pth"
 PIP_NO_INDEX=1 "$VENV/bin/python" -m pip install --quiet --no-index --find-links "$WHEELS" crosshair-tool cvc5 z3-solver jsonschema >/dev/null
 "$VENV/bin/python" -c "import crosshair, z3, cvc5, libcst, mypy_extensions; print('verif venv ready:', z3.get_version_string(), cvc5.__version__)"
+PYTHONDONTWRITEBYTECODE=1 "$VENV/bin/python" "$HERE/tools/selftest.py"
